@@ -64,6 +64,8 @@ int main() {
       else if (fn == "resulting_nobj") r = b.resulting_nobj((int)a["p_nobj_header"]);
       else if (fn == "resulting_obj_index") r = b.resulting_obj_index((int)a["p_index"]);
       else if (fn == "objno_specified") r = s.objno_specified();
+      else if (fn == "GetObjNo") r = s.GetObjNo(*s.FindOption("objno"));
+      else if (fn == "BoolOption_SetValue") { s.FindOption("obj:multi")->SetValue((fmt::LongLong)a["p_value"]); r = s.multiobj_; }
       else if (fn == "is_objno_specified") r = s.is_objno_specified();
       else if (fn == "multiobj") r = s.multiobj();
       else if (fn == "objno_used") r = s.objno_used();
